@@ -22,6 +22,9 @@ def run(ctx):
     unlock(ctx, P)
     lock(ctx, P)
     from_slice(ctx, P)
+    # the password-to-key derivation hashes the whole password (shared with C12): a truncated or mis-ordered S2K input lets other passwords unlock
+    from rules import c12
+    c12.s2k(ctx, P)
 
 
 def unlock(ctx, P):
